@@ -46,3 +46,24 @@ Theorem C06_msgpack_fixed_point_slice :
     let s := transcode_slice utf8_valid (flat_map enc_val vs) in
     fst s = map evs vs /\ mm_ok s = true /\ mm_output s = flat_map enc_val vs.
 Proof. exact slice_identity. Qed.
+
+(* The round-trip clause for one pair, entirely on the codec models
+   (theories/JsonMsgpackProofs.v): MessagePack -> JSON -> MessagePack.  For
+   every stream of MessagePack values JSON can carry (no binary data, no 32-bit
+   floats, string keys), the JSON text xt writes for them, read back by either
+   JSON loop, makes the MessagePack writer produce exactly what MessagePack ->
+   MessagePack produces: the canonical encoding of the original values.
+   Floats are spelled by ryu; what the theorem needs of that spelling is a
+   premise. *)
+From XtModel Require Import JsonModel JsonWriteModel JsonWriteProofs JsonMsgpackProofs.
+
+Theorem C06_msgpack_json_msgpack :
+  forall (fmt_f64 : N -> bytes) (float_ok : N -> bool),
+    (forall b, float_ok b = true -> forall f depth tail, val_end tail ->
+       parse_value (S f) depth (fmt_f64 b ++ tail) = ([EF64 b], JOk tail)) ->
+    (forall b, float_ok b = true ->
+       exists c r, fmt_f64 b = c :: r /\ is_ws c = false /\ (c =? 93)%N = false /\ (c =? 125)%N = false /\ (c =? 44)%N = false) ->
+    forall (vs : list mval) (js : list jval), Forall2 carries vs js -> Forall (writable float_ok) js ->
+      jm_output (json_reader (jwrite_docs fmt_f64 js)) = flat_map enc_val vs /\
+      jm_output (json_slice (jwrite_docs fmt_f64 js)) = flat_map enc_val vs.
+Proof. exact msgpack_json_msgpack. Qed.
